@@ -542,7 +542,8 @@ Print Assumptions C05_non_ascii_identifier_refuted.
    the syntactic file lay_file builds, i.e. order / Simplify / json_name / type names are those of the token model.
    Tie (bytes stream): every repository proto, compiled file and hand-built descriptor of a run is rebuilt without
    source info, printed by the REAL PrintFile, and render_bytes evaluated in Coq must give exactly those bytes.
-   Sub-class of the theorem: [bytes_modelled_b gen imp D] = unlocated_b D, the generated comment is one line, and
+   Sub-class of the theorem: [bytes_modelled_b gen imp D] = unlocated_b D, the generated comment is one line, the
+   printed tokens contain no comment pseudo token (computed: print_file_tokens = print_file_tokens_nc), and
    the computable layout test is_layout (tokens D) (render_bytes D) — evaluated on every case of the bytes stream
    (all inside). NOT proved: unlocated_b D /\ wf_dfile D -> is_layout ... (the test is a hypothesis, not a lemma);
    located descriptors (the blank-line rule on StartLine / EndLine, multi-line option sources, comments) are not
@@ -580,3 +581,10 @@ Example C05_example_bytes :
   /\ bytes_modelled_b Ex.ex_gen ProtoPrintFileExample.ex_imp Ex.ex_bytes_file = true.
 Proof. exact example_bytes. Qed.
 Print Assumptions C05_example_bytes.
+
+(* in the sub-class the comment-free tokens are ALL the tokens the printer model writes: the lexer model reads the
+   rendered bytes as exactly the token list C05_token_roundtrip is about *)
+Theorem C05_scan_render_bytes_tokens : forall gen imp D, bytes_modelled_b gen imp D = true ->
+  scan_text (render_bytes gen imp D) = Some (print_file_tokens (to_symtab (dfile_symtab imp D)) D).
+Proof. exact scan_render_bytes_tokens. Qed.
+Print Assumptions C05_scan_render_bytes_tokens.
